@@ -32,3 +32,31 @@ Theorem c11_removed_comes_back_without_mutex : exists s,
   nth_error (threads s) 2 = Some (TLook [116;49]%N (Some (Some ([116;49]%N, 10, 1%nat)))).
 Proof. exact removed_comes_back_without_mutex. Qed.
 Print Assumptions c11_removed_comes_back_without_mutex.
+
+(* ---- the SERVICE router (two-phase updateRoutes under the table mutex, handOver on release), same interleaving model ---- *)
+From GB Require Import Proofs.RouteConcSvcProofs.
+
+Theorem c11_service_invariant : forall name s0 s, MxInv name s0 -> TbInv name s0 -> CReach s0 s -> MxInv name s /\ TbInv name s.
+Proof. exact svc_inv_reach. Qed.
+Print Assumptions c11_service_invariant.
+
+(* no service is ever routed through an entry applied by a watcher whose Close has executed its removal - whatever
+   update (either phase), hand-over or re-watch was in flight *)
+Theorem c11_service_removed_stays_removed : forall name s0 s q n d w, MxInv name s0 -> TbInv name s0 -> CReach s0 s ->
+  lookup q s = Some (n, d, w) -> mem_nat w (removed s) = false.
+Proof. exact svc_removed_stays_removed. Qed.
+Print Assumptions c11_service_removed_stays_removed.
+
+Theorem c11_service_initial_states : forall name live0 watched0 ts, (forall t, In t ts -> wf_thr name t) ->
+  (forall w, nh ts w = 0%nat) -> (forall w n pc, In (TClose w n pc) ts -> pc = 0%nat) ->
+  (forall w n d pc, In (TUpd w n d pc) ts -> pc = 0%nat) ->
+  MxInv name (cinit KService true live0 watched0 ts) /\ TbInv name (cinit KService true live0 watched0 ts).
+Proof. exact svc_init_inv. Qed.
+Print Assumptions c11_service_initial_states.
+
+Theorem c11_service_removed_comes_back_without_mutex : exists s,
+  crun [0; 1; 1; 0; 0; 2]%nat (cinit KService false [1%nat] [[116;49]%N] f11s_threads) = Some s /\
+  mem_nat 1 (removed s) = true /\
+  nth_error (threads s) 2 = Some (TLook [115]%N (Some (Some ([116;49]%N, 10, 1%nat)))).
+Proof. exact svc_removed_comes_back_without_mutex. Qed.
+Print Assumptions c11_service_removed_comes_back_without_mutex.
